@@ -237,12 +237,14 @@ def run_case(case: dict):
     # which resource was delivered?
     delivered = SENT_RE.findall(text)
     listing = None
-    if status == "20" and "# Index of" in text:
-        names = set(re.findall(r"^=> \S+ (\S+?)/?(?: \([^()]*\))?$", text, re.M))
-        names.discard("..")
+    if status == "20" and not delivered:
+        # a 2x body that is no file's content is a directory listing; its layout is the implementation's business,
+        # it is recognised by naming every entry of a directory (the most specific such directory)
+        best = -1
         for d in DIRS:
-            full = os.path.join(root, d)
-            if set(os.listdir(full)) == names:
+            ents = os.listdir(os.path.join(root, d))
+            if ents and len(ents) > best and all(e in text for e in ents):
+                best = len(ents)
                 listing = "/" + (d + "/" if d else "")
     served = list(delivered) + ([listing] if listing else [])
     info["served"] = served
